@@ -434,8 +434,32 @@ func (x *Exec) dbAxioms(pkg *types.Package) []string {
 	for round := 0; round < 3; round++ {
 		out = out[:0]
 		var visible []Clause
+		// A lemma with the label of an axiom is the proof of that axiom: function units go on
+		// using the axiom as written (their VCs do not change), the lemma's own proof may use
+		// only the axioms that are not proved by it or by a later lemma, and the earlier lemmas.
+		later := map[string]bool{}
+		if x.lemmaCut != 0 {
+			for _, pc := range x.pkgContracts() {
+				for _, lm := range pc.LemmaList {
+					if lm.Ord >= x.lemmaCut {
+						later[lm.Label] = true
+					}
+				}
+			}
+		}
 		for _, pc := range x.pkgContracts() {
-			visible = append(visible, pc.Axioms...)
+			for _, a := range pc.Axioms {
+				if !later[a.Label] {
+					visible = append(visible, a)
+				}
+			}
+			if x.lemmaCut != 0 {
+				for _, lm := range pc.LemmaList {
+					if lm.Ord < x.lemmaCut {
+						visible = append(visible, Clause{Label: "lemma " + lm.Label, Src: lm.Src, E: lm.Q})
+					}
+				}
+			}
 		}
 		for _, a := range visible {
 			used := specCalls(a.E, nil)
@@ -445,8 +469,8 @@ func (x *Exec) dbAxioms(pkg *types.Package) []string {
 					relevant = true
 				}
 			}
-			if !relevant {
-				continue
+			if !relevant && x.lemmaCut == 0 {
+				continue // (a lemma's proof sees every axiom of its package, typing facts included)
 			}
 			env := &SpecEnv{x: x, st: st, old: st, names: map[string]Value{}, pkg: pkg}
 			func() {
@@ -771,5 +795,63 @@ func (x *Exec) probeValue(st *State, label string, v Value, depth int) {
 			}
 			x.probeValue(st, label+"."+stt.Field(i).Name(), x.loadField(st, v.S, et, i), depth+1)
 		}
+	}
+}
+
+
+// proveLemma generates the obligations of one lemma: the statement for arbitrary values of its
+// variables, or - by induction on one integer variable with the others fixed - base case and
+// step.  Only the axioms and the lemmas stated before it are available.
+func (x *Exec) proveLemma(lm *Lemma, pkg *types.Package) {
+	x.lemmaCut = lm.Ord
+	x.pkgPath = lm.Pkg
+	x.alloc0 = x.d.constant("alloc0", sInt)
+	st := &State{cells: map[*Cell]Value{}, heaps: map[string]string{}, wf: map[string]bool{}, held: map[string]string{}, ghost: map[string]Value{}, alloc: "alloc0"}
+	base := &SpecEnv{x: x, st: st, old: st, names: map[string]Value{}, pkg: pkg}
+	// fresh constants for the variables
+	consts := map[string]Value{}
+	for _, v := range lm.Q.Vars {
+		sort, kind, gt := base.sortOfName(v.Type)
+		c := x.d.fresh("lm."+v.Name, sort)
+		var val Value
+		if gt != nil {
+			val = x.tc.unpack(nil, gt, c)
+			val.T = gt
+		} else {
+			val = Value{K: kind, S: c}
+		}
+		consts[v.Name] = val
+	}
+	bodyWith := func(over map[string]Value) string {
+		env := base
+		for _, v := range lm.Q.Vars {
+			val := consts[v.Name]
+			if o, ok := over[v.Name]; ok {
+				val = o
+			}
+			env = env.bind(v.Name, val)
+		}
+		return env.evalBool(lm.Q.Body)
+	}
+	add := func(label, goal string, hyps []string) {
+		x.obls = append(x.obls, &Obligation{Name: x.unit + "#lemma:" + label, Unit: x.unit, Kind: "lemma", Label: label, Goal: goal, Hyps: hyps})
+	}
+	if lm.Var == "" {
+		add(lm.Label, bodyWith(nil), nil)
+		return
+	}
+	env := base
+	for _, v := range lm.Q.Vars {
+		env = env.bind(v.Name, consts[v.Name])
+	}
+	from := x.toInt(st, env.eval(lm.From))
+	add(lm.Label+":base", bodyWith(map[string]Value{lm.Var: intV(from)}), nil)
+	n := x.d.fresh("lm.n", sInt)
+	if !lm.Down {
+		ih := bodyWith(map[string]Value{lm.Var: intV(n)})
+		add(lm.Label+":step", bodyWith(map[string]Value{lm.Var: intV(mkAdd(n, "1"))}), []string{mkCmp(">=", n, from), ih})
+	} else {
+		ih := bodyWith(map[string]Value{lm.Var: intV(mkAdd(n, "1"))})
+		add(lm.Label+":step", bodyWith(map[string]Value{lm.Var: intV(n)}), []string{mkCmp("<", n, from), ih})
 	}
 }
